@@ -5,6 +5,12 @@ ROOT = os.path.dirname(os.path.dirname(os.path.abspath(__file__)))
 
 # id -> (level category, technique, level text, level note, design ref)
 BUILT = {
+ "C42": ("exploration", "proptest SQL histories run under several PRAGMA configurations (differential against a reference configuration)",
+         "One generated history (DDL, DML, transactions, checkpoint/reopen) runs on a reference database and on 2-3 databases under generated combinations of wal, synchronous, wal_autoflush, wal_checkpoint_threshold (tiny = auto-checkpoint every few statements) and with more table/index files than the open-file cache holds; every statement result and the full observation must be identical.",
+         "Whether an auto-checkpoint really fired is not observable through the API; the tiny threshold makes it very likely. Inherits the shared DML/rollback/DDL gates.", "4 C42"),
+ "C43": ("exploration", "proptest histories with bulk-API loads on one database and row-at-a-time INSERTs on its twin (differential)",
+         "Generated single-table schemas and histories where every full-row INSERT goes through insert_batch / insert_batch_into_schema / bulk_insert / a prepared INSERT executed per row (cached-plan path) on one database and as single INSERT statements on the twin, interleaved with DML; valid batches must leave equal observations, counts and next AUTO_INCREMENT value, batches with a violating row must be refused.",
+         "Three of the four APIs are listed findings in their entirety (gated, witnessed); the generated search continues on the prepared/cached-plan path for unindexed tables and on everything around it.", "4 C43"),
  "C10": ("exploration", "proptest SQL histories applied to an indexed database and its index-free twin (differential), queries compared after every statement",
          "One generated history (any key order, wide keys, deletes, updates of indexed columns, rollbacks, CREATE/DROP INDEX mid-history) runs on a database with PRIMARY KEY/UNIQUE/secondary/composite indexes and on a twin without any; point, range, IN, prefix, IS NULL, ORDER BY+LIMIT queries on indexed columns, the full scan and COUNT(*) must agree after every statement; EXPLAIN is sampled to confirm index plans are used.",
          "A statement runs on the twin only if the indexed database accepted it. Inherits the shared DML/rollback/DDL gates (listed findings) so that a divergence can only be something unlisted.", "4 C10"),
